@@ -166,7 +166,7 @@ class ActionJsonnet(Action):
         try:
             with parser_context(load_value_mode="yaml" if pyyaml_available else "json"):
                 values = load_value(_jsonnet.evaluate_snippet(fname, snippet, ext_vars=ext_vars, ext_codes=ext_codes))
-        except RuntimeError as ex:
+        except (RuntimeError, ValueError) as ex:
             raise argument_error(f'Problems evaluating jsonnet "{fname}": {ex}') from ex
         if self._validator is not None:
             self._validator.validate(values)
